@@ -556,7 +556,7 @@ func c07Check(r *Run, c *c07Case, got string, gotErr bool) {
 		r.Stat("spec:endpoint-deleted")
 		// inside the excluded region the property demands nothing; the model's description of what the
 		// code does there (Spec.slideRef, theorem operand_rewrite_total) is compared with the code
-		if slide != nil && !c.noOp && !strings.Contains(c.how, "sharedChild") {
+		if slide != nil && !c.noOp {
 			r.Stat("spec:endpoint-deleted:slide-checked")
 			gt := c07Tokens(got)
 			k, bad := 0, gotErr
